@@ -17,7 +17,8 @@ Inductive hop :=
 | HPut (s : sid) (from until : Z) (stacks : list (bytes * N)) (m : meta) (thr : option Z) (ok : bool)
 | HGet (sel : sid) (from until : Z) (obs : option get_obs)
 | HDelete (sel : sid)
-| HRetention (thr : Z).
+| HRetention (thr : Z)
+| HNop.                      (* cache eviction / graceful restart: transparent for the plain-map model (C02) *)
 
 Definition build_tree (ss : list (bytes * N)) : tnode :=
   fold_left (fun t kv => t_insert (fst kv) (snd kv) t) ss t_empty.
@@ -31,6 +32,7 @@ Definition hop_step (st : st_state) (h : hop) : st_state * st_out :=
   | HGet sel f u _ => (st, OutGet (st_get sel f u st))
   | HDelete sel => (st_delete sel st, OutUnit)
   | HRetention thr => (st_retention thr st, OutUnit)
+  | HNop => (st, OutUnit)
   end.
 
 Definition tl_eqb (o : get_obs) (tl : timeline) : bool :=
@@ -54,6 +56,7 @@ Definition cmp_step (with_tree with_tl : bool) (h : hop) (o : st_out) : option s
   | HGet _ _ _ (Some _), OutGet None => Some "Get: Go returned something, the model nothing"%string
   | HDelete _, OutUnit => None
   | HRetention _, OutUnit => None
+  | HNop, OutUnit => None
   | _, _ => Some "internal: output kind mismatch"%string
   end.
 
